@@ -25,6 +25,21 @@ def churn():
     gc.collect()
 
 
+def fresh_each_time(f):
+    """a value handed to the caller is the caller's: changing it must not change what the next call returns
+    (same object, same arguments).  Returns the second result, or a marker when it differs from the first."""
+    import copy
+    a = f()
+    snap = copy.deepcopy(a)
+    if isinstance(a, list):
+        a.reverse(); a.append("changed by the caller")
+        for x in a:
+            if isinstance(x, list): x.reverse(); x.append("changed by the caller")
+    b = f()
+    if b != snap: raise AssertionError("second call differs after the caller changed the first result")
+    return b
+
+
 def run(line):
     p = line.split(" ")
     op = p[0][3:]
@@ -43,16 +58,20 @@ def run(line):
     if op == "dec":
         return pk.KmerGenerator("A", int(p[1])).to_acgt(int(p[2]))
     if op == "oligo":
-        return ",".join(bits(v) for v in pk.OligoComputer(int(p[1])).vectorise_one(text(p[3]), p[2] == "1"))
+        c = pk.OligoComputer(int(p[1])); t = text(p[3])
+        if len(t) > 100000: return ",".join(bits(v) for v in c.vectorise_one(t, p[2] == "1"))
+        return ",".join(bits(v) for v in fresh_each_time(lambda: c.vectorise_one(t, p[2] == "1")))
     if op == "header":
-        return ",".join(pk.OligoComputer(int(p[1])).get_header())
+        c = pk.OligoComputer(int(p[1]))
+        return ",".join(fresh_each_time(c.get_header))
     if op == "cgr":
         try:
             return ",".join("%s:%s" % (bits(x), bits(y)) for x, y in pk.CgrComputer(int(p[1])).vectorise_one(text(p[2])))
         except ValueError:
             return "ERR"
     if op == "obatch":
-        rows = pk.OligoComputer(int(p[1])).vectorise_batch(texts(p[3]), p[2] == "1")
+        c = pk.OligoComputer(int(p[1])); ts = texts(p[3])
+        rows = fresh_each_time(lambda: c.vectorise_batch(ts, p[2] == "1")) if len(ts) <= 100 else c.vectorise_batch(ts, p[2] == "1")
         return "%d#%s" % (len(rows), ";".join(",".join(bits(v) for v in row) for row in rows))
     if op == "cbatch":
         try:
